@@ -53,7 +53,15 @@ def _guarded(rule, thunk):
     """A rule that meets code it was not written for (and raises) has no verdict: the failure is recorded as a note on every
     property the rule serves and printed on stderr; it is neither a pass of that rule nor an alarm."""
     try:
-        return thunk()
+        res = thunk()
+        # a shape the rule looks for and does not find ("anchor lost") is not a defect of the code: the rule has no verdict
+        # there.  Instance floors still catch a rule that recognises (almost) nothing at all.
+        for i in res:
+            if i.status == 'violation' and 'anchor lost' in i.detail:
+                i.status = 'note'
+                i.nontrivial = False
+                i.detail = i.detail.replace('(anchor lost)', '(shape not recognised: not decided)')
+        return res
     except Exception as e:   # noqa: BLE001 -- any analysis failure
         import sys
         import traceback
@@ -194,7 +202,7 @@ _p('C02', ['R-G', 'R-SIB', 'R-E', 'R-O', 'R-W', 'R-LVL', 'R-TW', 'R-DEL', 'R-LAY
 _p('C03', ['R-G', 'R-SIB', 'R-E', 'R-O', 'R-W', 'R-LVL', 'R-TW', 'R-DEL', 'R-LAY', 'R-BITS', 'R-SPLIT', 'R-HINT', 'R-SELP', 'R-SIG', 'R-GUSE'], 'other',
    EXPL + 'C03: validation of WT/HWT get/rank/select in both specialisations, symbol carried in the element type, empty state, level-write guard, construction paths.',
    'wavelet-matrix arithmetic, binwt::craft_wm_codes table bounds for degenerate alphabets (loop-carried indices), tie orders')
-_p('C04', ['R-G', 'R-E', 'R-O', 'R-UNS', 'R-SIB', 'R-LAY', 'R-DA', 'R-DBG', 'R-SMP', 'R-CMP', 'R-SELP', 'R-PF', 'R-INV', 'R-DAR', 'R-PRE', 'R-NON', 'R-GUSE', 'R-WRAP', 'R-RNG'], 'other',
+_p('C04', ['R-G', 'R-E', 'R-O', 'R-UNS', 'R-SIB', 'R-LAY', 'R-DA', 'R-DBG', 'R-SMP', 'R-CMP', 'R-SELP', 'R-PF', 'R-INV', 'R-DAR', 'R-PRE', 'R-NON', 'R-GUSE', 'R-WRAP', 'R-RNG', 'R-W', 'R-SER'], 'other',
    EXPL + 'C04: every unchecked access is behind the documented guard, empty/default states reach no trap, argument arithmetic is bounded, unchecked API is unsafe, '
    'raw views match layouts.',
    'index arithmetic inside search loops (select_block, select*_subblock, block_predecessor, DArray word scan: sentinel invariants over stored data), CPU feature of _popcnt64, allocation failure')
@@ -210,7 +218,7 @@ _p('C07', ['R-DAR', 'R-G', 'R-E', 'R-TW', 'R-DEL', 'R-LAY', 'R-SPLIT', 'R-NEG', 
 _p('C08', ['R-SIB', 'R-NON', 'R-O', 'R-G', 'R-TW', 'R-LAY', 'R-E', 'R-SPLIT', 'R-CMP', 'R-NEG', 'R-GUSE', 'R-WRAP', 'R-REMC', 'R-IT'], 'other',
    EXPL + 'C08: BitVector vs BitVectorMut readers validate identically, cached population count depends on overwritten bits, conversions move every field, get_bits arithmetic.',
    'bit-level effect of set_symbol, word reads and position iterators over arbitrary histories')
-_p('C09', ['R-PF', 'R-EFF', 'R-SIB', 'R-LAY', 'R-BITS'], 'other',
+_p('C09', ['R-PF', 'R-EFF', 'R-SIB', 'R-LAY', 'R-BITS', 'R-SER'], 'other',
    EXPL + 'C09: rank_prefetch validates like rank and returns exactly rank_unchecked on the untouched arguments; prefetch addresses use wrapping arithmetic and only reach the '
    'intrinsic; positions feed only hints; bodies are feature-independent.',
    'that the estimates stay within the next level where they are re-used as arguments of approx_rank_unchecked / rank_block_unchecked (an invariant over data)')
@@ -225,10 +233,10 @@ _p('C11', ['R-SER', 'R-AUTO', 'R-EFF', 'R-NON'], 'proof',
    trusted_base=['rustc', 'serde_derive (generated code is inspected, its semantics trusted)', 'serde', 'bincode 1.3.3'])
 _p('C12', ['R-IT', 'R-E', 'R-REMC'], 'other', EXPL + 'C12: cursor discipline of every ExactSizeIterator; WTIterator template facts from which in-order / reverse-order / exact-length follow by induction.',
    'that get_unchecked(k) returns S[k] (C01-C03); BitVectorBitPositionsIter word scanning')
-_p('C13', ['R-MSK', 'R-G', 'R-TW', 'R-DEL', 'R-LAY', 'R-E', 'R-SPLIT', 'R-GUSE', 'R-REMC', 'R-IT'], 'other',
+_p('C13', ['R-MSK', 'R-G', 'R-TW', 'R-DEL', 'R-LAY', 'R-E', 'R-SPLIT', 'R-GUSE', 'R-REMC', 'R-IT', 'R-O', 'R-DA'], 'other',
    EXPL + 'C13: two-bit truncation precedes the write, factor-2 agreement of push/len/get, extend pushes every element, get validation.',
    'bit placement inside the line for all 256 positions')
-_p('C14', ['R-LAY', 'R-BOX', 'R-PF', 'R-SIG'], 'other', EXPL + 'C14: layouts and constants from which the relative overheads are computed and compared with the stated bounds; payload fields have no slack.',
+_p('C14', ['R-LAY', 'R-BOX', 'R-PF', 'R-SIG', 'R-NON'], 'other', EXPL + 'C14: layouts and constants from which the relative overheads are computed and compared with the stated bounds; payload fields have no slack.',
    'the level-count formula and allocation totals for all n (loop trip counts)')
 _p('C15', ['R-LVL', 'R-LAY'], 'other', EXPL + 'C15: levels hold only live codes; optimal lengths used unmodified with the right fragment width.',
    'the numeric bounds n(H0+2), n(H0+1): they follow from Huffman optimality (trusted crate minimum_redundancy) given the decided clauses')
